@@ -68,7 +68,7 @@ PROOF_UNITS = {
 
 # property id -> list of bounded part names (functions in bounded/parts.py)
 BOUNDED_PARTS = {
-    'C01': ['c01_presence'],
+    'C01': ['c01_presence', 'engine_differential'],
     'C02': ['c02_queries'],
     'C03': ['c03_canonical', 'c03_derived_constructors'],
     'C04': ['c04_snapshots'],
